@@ -36,7 +36,7 @@ def bounds(tier):
     return {
         "alphabet": ALPHABET,
         "reduced_alphabet": REDUCED,
-        "length_mandatory": "all L<=2 over the alphabet, plus a VERIF_SEED-rotated 1/40 of L=3 without the 'heavy' combinations (ecall inside a possible loop, mul feeding control flow, loaded jump targets), which are left to the thorough tier" if tier == "quick" else "all L<=2 over the alphabet, all L=3 over the reduced alphabet",
+        "length_mandatory": "all L<=2 over the alphabet, six producer/ecall/consumer skeletons, plus a VERIF_SEED-rotated 1/40 of L=3 without the 'heavy' combinations (ecall inside a possible loop, mul feeding control flow, loaded jump targets), which are left to the thorough tier" if tier == "quick" else "all L<=2 over the alphabet, all L=3 over the reduced alphabet",
         "length_optional": None if tier == "quick" else "remaining L=3 skeletons (a VERIF_SEED-rotated sixth first) and L=4 over the reduced alphabet, as far as the wall budget allows; skeletons not reached are listed as jobs_skipped_optional",
         "dynamic_instruction_cap_K": "2L+2",
         "single_instruction_programs": "all 46 classes, alone and behind one addi",
@@ -128,9 +128,16 @@ def jobs(tier, seed):
         out.append({"label": "L2:" + ",".join(sk), "harness": "prog", "args": {"mnems": sk}, "cost": 6 + 10 * sk.count("ecall"), "timeout_ms": 10000, "cut_on_undecided": True})
     l3 = skeletons(ALPHABET, 3)
     if tier == "quick":
+        picked = set()
         for i, sk in enumerate(l3):
             if (i + seed) % 40 == 0 and not heavy(sk):
                 out.append(l3job(sk, False))
+                picked.add(tuple(sk))
+        # always in the quick tier: a producer and a consumer around an ecall drain
+        for a_ in ("add", "lw"):
+            for b_ in ("add", "sw", "beq"):
+                if (a_, "ecall", b_) not in picked:
+                    out.append(l3job([a_, "ecall", b_], False))
     else:
         red = set(REDUCED)
         rest = []
